@@ -73,6 +73,8 @@ func (s script) finalErr() error {
 		return context.DeadlineExceeded // a handler passing on the error of some inner call, not a status
 	case "bare-canceled":
 		return context.Canceled
+	case "eof-error":
+		return io.EOF // an error like any other to a gRPC server (Unknown "EOF"); not "the stream ended well"
 	case "wrapped-deadline":
 		return fmt.Errorf("inner call: %w", context.DeadlineExceeded) // the same, with context added on the way up
 	case "wrapped-canceled":
@@ -136,6 +138,18 @@ func (s *server) meta(ctx context.Context, sc script, stream grpc.ServerStream) 
 			grpc.SetTrailer(ctx, trlMD)
 		}
 	}
+	if sc.Quirk == "trailer-twice" {
+		// trailers and headers set in several steps accumulate, also under one key
+		more := metadata.Pairs("x-t", "10", "x-u", "1")
+		moreH := metadata.Pairs("x-h", "3")
+		if stream != nil {
+			stream.SetTrailer(more)
+			stream.SetHeader(moreH)
+		} else {
+			grpc.SetTrailer(ctx, more)
+			grpc.SetHeader(ctx, moreH)
+		}
+	}
 }
 
 func (s *server) Unary(ctx context.Context, req *tp.UnaryRequest) (*tp.UnaryResponse, error) {
@@ -168,6 +182,11 @@ func (s *server) ServerStream(req *tp.ServerStreamRequest, stream grpc.ServerStr
 	if sc.Client != "normal" && sc.ClientAt >= sc.N {
 		// the client will cancel / time out while we have nothing more to send: wait for it
 		<-stream.Context().Done()
+		if sc.Quirk == "own-status-after-cancel" {
+			// a handler that notices the client has gone and answers with a status (or success) of its own:
+			// the client gave up first, so its own cancellation is what it hears
+			return sc.finalErr()
+		}
 		return stream.Context().Err()
 	}
 	return sc.finalErr()
@@ -564,6 +583,17 @@ func scripts(thorough bool) []script {
 	}
 	for _, f := range []string{"ok", "status"} {
 		out = append(out, script{Shape: "cstream", HeaderMode: "set", Trailer: true, N: 1, Final: f, ErrAfter: -1, Client: "normal", Quirk: "respond-then"})
+	}
+	for _, shape := range []string{"unary", "sstream", "cstream", "bidi"} {
+		out = append(out, script{Shape: shape, HeaderMode: "set", Trailer: true, N: 1, Final: "eof-error", ErrAfter: -1, Client: "normal"})
+	}
+	for _, f := range []string{"ok", "status"} {
+		out = append(out, script{Shape: "sstream", HeaderMode: "none", N: 1, Final: f, ErrAfter: -1, Client: "cancel", ClientAt: 1, Quirk: "own-status-after-cancel"})
+	}
+	for _, shape := range []string{"unary", "sstream", "cstream", "bidi"} {
+		for _, f := range []string{"ok", "status"} {
+			out = append(out, script{Shape: shape, HeaderMode: "set", Trailer: true, N: 1, Final: f, ErrAfter: -1, Client: "normal", Quirk: "trailer-twice"})
+		}
 	}
 	for _, q := range []string{"md-incoming", "md-outgoing", "md-both"} {
 		for _, shape := range []string{"unary", "sstream", "cstream", "bidi"} {
